@@ -650,6 +650,9 @@ func (g *Gen) run(n int) {
 				}
 			}
 			mode := g.pick([]string{"ro=1", "store=memdir", "store=memdir", "ro=1 del=0", "store=memdir push=1 del=1"})
+			if g.r.Intn(2) == 0 {
+				mode += " prep=1" // leftovers put into the directory by hand between the two servers (see fsPrep)
+			}
 			g.emit("RESTART " + mode)
 			g.sessions = nil
 			offs, recv := map[int]int{}, map[int]string{}
@@ -675,6 +678,11 @@ func (g *Gen) run(n int) {
 					if len(g.blobsIn[repo]) > 0 {
 						c := g.pick(g.blobsIn[repo])
 						g.emit("UPOST " + repo + " digest=sha256:" + c + " body=" + c)
+						if g.r.Intn(2) == 0 {
+							// ... or is deleted through the blob API and read again
+							g.emit("BDEL " + repo + " sha256:" + c)
+							g.emit(g.pick([]string{"BHEAD ", "BGET "}) + repo + " sha256:" + c)
+						}
 					}
 					if len(g.manIn[repo]) > 0 && g.r.Intn(2) == 0 {
 						g.emit("MDEL " + repo + " sha256:" + g.pick(g.manIn[repo]))
